@@ -1356,3 +1356,90 @@ func main() {
 	return &Program{Files: map[string]string{"main.go": g.b.String(), "main_s.go": mainS, "main_m.go": mainM, "go.mod": "module seqprog\n\ngo 1.20\n"},
 		Atoms: g.atom, Features: g.feat, Clean: o.Clean, Units: g.units, Wheres: g.wheres}
 }
+
+// GenerateChains draws a program made of call chains main -> c1 -> ... -> ck -> yield atom, in which every link
+// is a random kind of call (direct, invoked function literal, closure variable, method, interface method, method
+// value, deferred closure, goroutine + join, generic function, call inside a loop or switch). Functions are
+// declared in shuffled order, so callers often precede their callees. The chains are small on purpose: the
+// blocking analysis has to carry "may suspend" from the atom up to main link by link, and in a small program
+// every propagation round is quiet except for the link under test.
+func GenerateChains(r *rng.R, nChains int) *Program {
+	feat := map[string]int{}
+	atom := 0
+	var decls []string // top-level declarations, shuffled later
+	var heads []string
+	fn := 0
+	for c := 0; c < nChains; c++ {
+		depth := 2 + r.Intn(4)
+		names := make([]string, depth)
+		for i := range names {
+			fn++
+			names[i] = fmt.Sprintf("c%d", fn)
+		}
+		heads = append(heads, names[0])
+		for i := 0; i < depth; i++ {
+			var next string
+			if i == depth-1 {
+				atom++
+				next = fmt.Sprintf("y.Y(%d) + p", atom)
+			} else {
+				next = fmt.Sprintf("%s(p + 1)", names[i+1])
+			}
+			n := names[i]
+			id := 1000 + fn*10 + i
+			var d string
+			switch k := r.Intn(12); k {
+			case 0:
+				feat["link:direct"]++
+				d = fmt.Sprintf("func %s(p int) (r int) {\n\ty.Tr(%d)\n\tr = %s\n\ty.Tr(r %% 997)\n\treturn r + 1\n}", n, id, next)
+			case 1:
+				feat["link:invoked-literal"]++
+				d = fmt.Sprintf("func %s(p int) (r int) {\n\ty.Tr(%d)\n\tr = func() int { return %s }() + 2\n\ty.Tr(r %% 997)\n\treturn r\n}", n, id, next)
+			case 2:
+				feat["link:closure-variable"]++
+				d = fmt.Sprintf("func %s(p int) (r int) {\n\tf := func(p int) int { return %s }\n\ty.Tr(%d)\n\tr = f(p) + 3\n\ty.Tr(r %% 997)\n\treturn r\n}", n, next, id)
+			case 3:
+				feat["link:value-method"]++
+				d = fmt.Sprintf("type t%s struct{ k int }\n\nfunc (t t%s) M(p int) int { return %s + t.k }\n\nfunc %s(p int) (r int) {\n\ty.Tr(%d)\n\tr = t%s{k: 4}.M(p)\n\ty.Tr(r %% 997)\n\treturn r\n}", n, n, next, n, id, n)
+			case 4:
+				feat["link:interface-method"]++
+				d = fmt.Sprintf("type t%s struct{ k int }\n\nfunc (t *t%s) M(p int) int { t.k++; return %s + t.k }\n\nfunc %s(p int) (r int) {\n\tvar i interface{ M(int) int } = &t%s{k: 5}\n\ty.Tr(%d)\n\tr = i.M(p)\n\ty.Tr(r %% 997)\n\treturn r\n}", n, n, next, n, n, id)
+			case 5:
+				feat["link:method-value"]++
+				d = fmt.Sprintf("type t%s struct{ k int }\n\nfunc (t t%s) M(p int) int { return %s + t.k }\n\nfunc %s(p int) (r int) {\n\tmv := t%s{k: 6}.M\n\ty.Tr(%d)\n\tr = mv(p)\n\ty.Tr(r %% 997)\n\treturn r\n}", n, n, next, n, n, id)
+			case 6:
+				feat["link:deferred-closure"]++
+				d = fmt.Sprintf("func %s(p int) (r int) {\n\tdefer func() {\n\t\tr += %s\n\t\ty.Tr(r %% 997)\n\t}()\n\ty.Tr(%d)\n\treturn 7\n}", n, next, id)
+			case 7:
+				feat["link:goroutine-join"]++
+				d = fmt.Sprintf("func %s(p int) (r int) {\n\tc := make(chan int)\n\ty.Tr(%d)\n\tgo func() { c <- %s }()\n\tr = <-c + 8\n\ty.Tr(r %% 997)\n\treturn r\n}", n, id, next)
+			case 8:
+				feat["link:generic-function"]++
+				d = fmt.Sprintf("func g%s[T any](x T, p int) int {\n\t_ = x\n\treturn %s\n}\n\nfunc %s(p int) (r int) {\n\ty.Tr(%d)\n\tr = g%s[string](\"s\", p) + 9\n\ty.Tr(r %% 997)\n\treturn r\n}", n, next, n, id, n)
+			case 9:
+				feat["link:inside-loop-and-switch"]++
+				d = fmt.Sprintf("func %s(p int) (r int) {\n\ty.Tr(%d)\n\tfor i := 0; i < 2; i++ {\n\t\tswitch {\n\t\tcase i == 1:\n\t\t\tr += %s\n\t\tdefault:\n\t\t\tr += i\n\t\t}\n\t\ty.Tr(r %% 997)\n\t}\n\treturn r\n}", n, id, next)
+			case 10:
+				feat["link:function-value-parameter"]++
+				d = fmt.Sprintf("func %s(p int) (r int) {\n\ty.Tr(%d)\n\tr = y.Apply(func(p int) int { return %s }, p) + 10\n\ty.Tr(r %% 997)\n\treturn r\n}", n, id, next)
+			default:
+				feat["link:argument-of-static-call"]++
+				d = fmt.Sprintf("func %s(p int) (r int) {\n\ty.Tr(%d)\n\tr = sel3(p > -1, %s, 0) + 11\n\ty.Tr(r %% 997)\n\treturn r\n}", n, id, next)
+			}
+			decls = append(decls, d)
+		}
+	}
+	// main first (callers before callees), then the chain functions in shuffled order
+	var b strings.Builder
+	b.WriteString(prelude)
+	b.WriteString("func main() {\n")
+	for _, h := range heads {
+		fmt.Fprintf(&b, "\ty.Tr(%s(%d) %% 9973)\n", h, r.Intn(5))
+	}
+	b.WriteString("\tprintln(\"END\")\n}\n\n")
+	for _, i := range r.Perm(len(decls)) {
+		b.WriteString(decls[i] + "\n\n")
+	}
+	b.WriteString("var _ = runtime.NumGoroutine\n")
+	return &Program{Files: map[string]string{"main.go": b.String(), "go.mod": "module seqprog\n\ngo 1.20\n"}, Atoms: atom, Features: feat, Clean: true}
+}
